@@ -46,6 +46,16 @@ def specCloneContent (n : Nat) (f : Forest) : List Tree :=
   | some src => f.content ++ [expectedClone f.consolidation src.erase]
   | none => f.content
 
+/-- **Clone**, handle for handle: the copy is the structural copy `copyRoot` of the source with
+    fresh handles numbered from `f.next` (`Model/FcloneSpec.lean`); its content is
+    `expectedClone` (proved in C12). -/
+def specClone (n : Nat) (f : Forest) : Forest :=
+  match f.get? n with
+  | some src =>
+    let r := copyRoot f.consolidation f.next src
+    { f with roots := f.roots ++ [r.1], next := r.2 }
+  | none => f
+
 /-! ### Attribute and namespace maps: one entry of one view of one element -/
 
 /-- Is the child `c` the entry with key `key` of view `k`? -/
